@@ -53,3 +53,10 @@ pub async fn serve_model<S, Req, Res>(serve: S, ctx: context::Context, message: 
 /// lines around `mpsc::unbounded_channel()`; A-mpsc)
 #[verifier::external_body]
 pub fn cancellations_model() -> (r: (RequestCancellation, CanceledRequests)) { unimplemented!() }
+
+/// `mpsc::channel(buffer)` for the response fan-in of `Requests`: the two ends of one fresh queue (the buffer size, read
+/// from the channel's config, is not part of any contract)
+#[verifier::external_body]
+pub fn response_queue_model<T>() -> (r: (ResponseSender<T>, ResponseQueue<T>))
+    ensures !r.1@.drained
+{ unimplemented!() }
